@@ -314,7 +314,7 @@ fn c01(a: &Args, rep: &mut Report) {
         "tolerance model of DESIGN 5.3; cells with summed vertex error bound > 1e-6 L only get the membership test".into(),
     ];
     let szs = sizes(a);
-    let n = ncases(a, 2500, 60000);
+    let n = ncases(a, 8000, 80000);
     let masks = a.tier == "thorough";
     run_parallel(rep, n, budget(a, 100., 1500.), |k, rep| {
         let o = GenOpts {
@@ -358,7 +358,7 @@ fn c02(a: &Args, rep: &mut Report) {
     rep.rule = "cases = seeded full builds of the conditioned families with emphasis on 1D, periodic, anisotropic boxes and large offsets; distinct = distinct input hash; non-trivial = the sum of measures was compared with the closed-form box measure (every case)".into();
     rep.assumptions = vec!["box measure = product of the active widths as given by the harness input (unit thickness on unused axes)".into()];
     let szs = sizes(a);
-    let n = ncases(a, 8000, 200000);
+    let n = ncases(a, 40000, 400000);
     run_parallel(rep, n, budget(a, 100., 900.), |k, rep| {
         let o = GenOpts {
             sizes: &szs,
@@ -396,7 +396,7 @@ fn c03(a: &Args, rep: &mut Report) {
     rep.rule = "cases = seeded inputs (conditioned families, all dimensionalities, periodic or not, one third with masks); distinct = distinct input hash; non-trivial = at least one face between two constructed cells was compared from both sides".into();
     rep.assumptions = vec!["tolerance model of DESIGN 5.3 for the two cells sharing a face".into()];
     let szs = sizes(a);
-    let n = ncases(a, 5000, 100000);
+    let n = ncases(a, 24000, 200000);
     run_parallel(rep, n, budget(a, 100., 900.), |k, rep| {
         let o = GenOpts {
             sizes: &szs,
@@ -430,7 +430,7 @@ fn c04(a: &Args, rep: &mut Report) {
     rep.rule = "cases = seeded inputs (conditioned families, all dimensionalities, periodic or not, one third partial builds); distinct = distinct input hash; non-trivial = at least one constructed cell whose faces were checked".into();
     rep.assumptions = vec!["tolerance model of DESIGN 5.3".into()];
     let szs = sizes(a);
-    let n = ncases(a, 5000, 100000);
+    let n = ncases(a, 24000, 200000);
     run_parallel(rep, n, budget(a, 100., 900.), |k, rep| {
         let o = GenOpts {
             sizes: &szs,
